@@ -13,6 +13,21 @@ void h_static_tables(void)
   VERIF_CANARY();
 }
 
+/* the mask form of the character classes (used by the contracts) equals the
+ * readable form, for every int */
+void h_spec_charclasses(void)
+{
+  IN(int, in_c)
+  CHECK(SPEC_SX_ISDIGIT(in_c) == SPEC_SX_REF_ISDIGIT(in_c), "mask form == readable form: digit");
+  CHECK(SPEC_SX_ISXDIGIT(in_c) == SPEC_SX_REF_ISXDIGIT(in_c), "mask form == readable form: xdigit");
+  CHECK(SPEC_SX_ISSPACE(in_c) == SPEC_SX_REF_ISSPACE(in_c), "mask form == readable form: space");
+  CHECK(SPEC_SX_ISSYMINIT(in_c) == SPEC_SX_REF_ISSYMINIT(in_c), "mask form == readable form: symbol-initial");
+  CHECK(SPEC_SX_ISSYMCH(in_c) == SPEC_SX_REF_ISSYMCH(in_c), "mask form == readable form: symbol constituent");
+  CHECK(SPEC_SX_ISDELIM(in_c) == SPEC_SX_REF_ISDELIM(in_c), "mask form == readable form: delimiter");
+  CHECK(SPEC_SX_DIGITVAL(in_c) == SPEC_SX_REF_DIGITVAL(in_c), "mask form == readable form: digit value");
+  VERIF_CANARY();
+}
+
 void h_digit2int(void)
 {
   IN(char, in_c)
@@ -142,6 +157,22 @@ void h_sx_parse_token(void)
   VERIF_CANARY();
 }
 
+void h_sx_parse_(void)
+{
+  SX_INPUT()
+  struct sx_parse_result r = sx_parse_((const char *)in_s, in_n, in_i);
+  (void)r;
+  VERIF_CANARY();
+}
+
+void h_sx_parse_list(void)
+{
+  SX_INPUT()
+  struct sx_parse_result r = sx_parse_list((const char *)in_s, in_n, in_i);
+  (void)r;
+  VERIF_CANARY();
+}
+
 /* ---- value of an integer literal (tier B: up to SX_VDIGITS digits, loops
  * unwound; plain harness, no contracts, the real digit2int and the real
  * static table).  20 decimal digits cover every value below 2^64 and the
@@ -172,3 +203,131 @@ static void sx_integer_value(int hex)
 }
 void h_integer_value_dec(void) { sx_integer_value(0); VERIF_CANARY(); }
 void h_integer_value_hex(void) { sx_integer_value(1); VERIF_CANARY(); }
+
+/* ==== bounded whole-stack targets (tier B) =================================
+ * The real reader, end to end (real leaves, real static tables, real
+ * allocator behind the ledger; no contracts), on EVERY string of up to SX_BN
+ * octets over a 10-character alphabet that has one member of every class the
+ * reader distinguishes, compared with a reference reader written from the
+ * grammar in spec/sx.h:
+ *   - the input begins (after whitespace) with a complete expression
+ *       <=> status is SXS_SUCCESS; then the node is non-NULL, position is
+ *       just past the expression, and the tree IS the expression: same
+ *       nesting (also of empty lists), same symbol texts, same integer values
+ *       (hex digits in either case)  -- "parse inverts print", since every
+ *       rendering of a tree with whatever whitespace is one of these strings;
+ *   - otherwise an error status, no node, and the ledger is back where it
+ *     was (nothing leaked);
+ *   - sx_destroy of a returned tree gives every block back exactly once;
+ *   - the input block has exactly in_n octets (or in_n + 1 with the NUL for
+ *     the NUL-terminated entry point), so any read outside fails.
+ */
+#ifndef SX_BN
+#define SX_BN 5
+#endif
+#define SX_ALPHABET_OK(c) ((c) == '(' || (c) == ')' || (c) == ' ' || (c) == 'a' || (c) == '1' \
+                           || (c) == '#' || (c) == 'x' || (c) == 'F' || (c) == '-' || (c) == '{')
+
+static size_t ref_skip_ws(const char *s, size_t n, size_t i)
+{
+  while (i < n && SPEC_SX_REF_ISSPACE(s[i])) i++;
+  return i;
+}
+
+/* 0: s[i..n) does not begin with a complete expression
+ * 1: it does, *end is the position just past it (and, when t != NULL was
+ *    given, the tree t is that expression)
+ * 2: it does, but the tree t is not that expression */
+static int ref_list_tail(const char *s, size_t n, size_t i, size_t *end, const struct sx_node *t, int cmp);
+
+static int ref_expr(const char *s, size_t n, size_t i, size_t *end, const struct sx_node *t, int cmp)
+{
+  i = ref_skip_ws(s, n, i);
+  if (i >= n) return 0;
+  const char c = s[i];
+  if (c == '(') return ref_list_tail(s, n, i + 1, end, t, cmp);
+  if (c == ')') return 0;
+  if ((n - i > 2 && c == '#' && s[i + 1] == 'x' && SPEC_SX_REF_ISXDIGIT(s[i + 2])) || SPEC_SX_REF_ISDIGIT(c)) {
+    const int hex = (c == '#');
+    size_t j = hex ? i + 2 : i;
+    uint64_t v = 0;
+    while (j < n && (hex ? SPEC_SX_REF_ISXDIGIT(s[j]) : SPEC_SX_REF_ISDIGIT(s[j]))) {
+      v = v * (hex ? 16u : 10u) + SPEC_SX_REF_DIGITVAL(s[j]);
+      j++;
+    }
+    if (j < n && !SPEC_SX_REF_ISDELIM(s[j])) return 0;
+    *end = j;
+    if (cmp && !(t != NULL && t->type == SXT_INTEGER && t->data.u64 == v)) return 2;
+    return 1;
+  }
+  if (SPEC_SX_REF_ISSYMINIT(c)) {
+    size_t j = i;
+    while (j < n && SPEC_SX_REF_ISSYMCH(s[j])) j++;
+    if (j < n && !SPEC_SX_REF_ISDELIM(s[j])) return 0;
+    *end = j;
+    if (cmp) {
+      if (!(t != NULL && t->type == SXT_SYMBOL && t->data.symbol != NULL)) return 2;
+      for (size_t k = 0; k < j - i; k++)
+        if (t->data.symbol[k] != s[i + k]) return 2;
+      if (t->data.symbol[j - i] != '\0') return 2;
+    }
+    return 1;
+  }
+  return 0;
+}
+
+static int ref_list_tail(const char *s, size_t n, size_t i, size_t *end, const struct sx_node *t, int cmp)
+{
+  i = ref_skip_ws(s, n, i);
+  if (i >= n) return 0;                        /* unterminated list */
+  if (s[i] == ')') {
+    *end = i + 1;
+    if (cmp && !(t != NULL && t->type == SXT_EMPTY_LIST)) return 2;
+    return 1;
+  }
+  int bad = 0;
+  const struct sx_node *car = NULL, *cdr = NULL;
+  if (cmp) {
+    if (t != NULL && t->type == SXT_PAIR && t->data.pair != NULL) { car = t->data.pair->car; cdr = t->data.pair->cdr; }
+    else { bad = 1; cmp = 0; }                 /* keep recognising, the answer is 0 or 2 */
+  }
+  size_t e1 = 0;
+  const int r1 = ref_expr(s, n, i, &e1, car, cmp);
+  if (r1 == 0) return 0;
+  const int r2 = ref_list_tail(s, n, e1, end, cdr, cmp);
+  if (r2 == 0) return 0;
+  return (bad || r1 == 2 || r2 == 2) ? 2 : 1;
+}
+
+static void sx_whole(int nul_terminated)
+{
+  IN(size_t, in_n)
+  ASSUME(in_n <= SX_BN);
+  IN_MEM(in_s, in_n + (nul_terminated ? 1u : 0u))
+  const char *s = (const char *)in_s;
+  for (size_t k = 0; k < SX_BN; k++)
+    if (k < in_n) ASSUME(SX_ALPHABET_OK(s[k]));
+  if (nul_terminated) in_s[in_n] = '\0';
+  const size_t base = g_sx_live;
+
+  struct sx_parse_result r = nul_terminated ? sx_parse_string(s) : sx_parse_stringn(s, in_n);
+
+  size_t end = 0;
+  const int cmp = (r.status == SXS_SUCCESS && r.node != NULL);
+  const int ref = ref_expr(s, in_n, 0, &end, r.node, cmp);
+  if (ref == 0) {
+    CHECK(r.status != SXS_SUCCESS && r.status != SXS_FOUND_LIST, "no complete expression => error status");
+    CHECK(r.node == NULL, "error => no tree returned");
+    CHECK(g_sx_live == base, "error => nothing leaked (ledger back at its start value)");
+  } else {
+    CHECK(r.status == SXS_SUCCESS, "complete expression => SXS_SUCCESS");
+    CHECK(r.node != NULL, "success => a tree is returned");
+    CHECK(r.position == end, "success => position is just past the expression");
+    CHECK(ref == 1, "success => the tree is the expression (nesting, symbol texts, integer values)");
+    sx_destroy(&r.node);
+    CHECK(r.node == NULL, "sx_destroy clears the caller's pointer");
+    CHECK(g_sx_live == base, "sx_destroy gives back every block of the tree exactly once");
+  }
+}
+void h_whole_stringn(void) { sx_whole(0); VERIF_CANARY(); }
+void h_whole_string(void) { sx_whole(1); VERIF_CANARY(); }
